@@ -196,6 +196,10 @@ func matchNPMRequirement(req VersionKey, vers []Version) []Version {
 // matchRequirement is a default implementation of MatchRequirement, appropriate
 // for many systems.
 func matchRequirement(req VersionKey, versions []Version) []Version {
+	// The list can be in any order: sort a copy (the slice may be shared
+	// with a client and with other goroutines matching against it).
+	versions = slices.Clone(versions)
+	SortVersions(versions)
 	constraint, err := req.System.Semver().ParseConstraint(req.Version)
 	if err != nil {
 		// Fall back to string matching.
